@@ -193,6 +193,15 @@ def judge(step, rep, pre, post, names, layers, src, sh, case):
         if rep["err"] != "BuildpackError":
             sh.violation("error-variant", "%s: callback error surfaced as %s" % (what, rep["detail"][:200]), case)
             return None
+        cbs_ran = [c["cb"] for c in rep.get("callbacks", [])]
+        if cbs_ran[:1] == ["migrate"] and len(cbs_ran) >= 2 and step["migrate"]["action"] == "replace" and isinstance(v0["toml"], bytes):
+            # the migration the callback asked for was carried out (the next callback has run on its result); that a LATER callback failed
+            # does not bring the unparsable metadata back - the file holds the migrated metadata, or is gone with a deleted layer
+            sh.count("failures_after_a_completed_migration")
+            if v1["toml"] == v0["toml"]:
+                sh.violation("migration-undone", "%s: callbacks %r - the migration to new metadata was done, a later callback failed (%s), and %s.toml holds the metadata from before the "
+                             "migration again: %r" % (what, cbs_ran, rep["detail"][:100], step["name"], v0["toml"][:120]), case)
+                return None
         return "error"
     if action == "error":
         sh.violation("error-swallowed", "%s succeeded although a callback failed" % what, case)
@@ -373,6 +382,25 @@ def run_history(mon, base, hid, steps, names, sh, snapshots_out=None, src_mtime=
             if snapshots_out is not None:
                 snapshots_out.append(post)
         case.pop("failing_step", None)
+        # at the end: one of the layers comes back with metadata of an older shape, and the migration callback answers with metadata that
+        # cannot be written as TOML (an integer beyond 64-bit signed). That is a reported error: no create/update runs, nothing changes on disk
+        target = next((n for n in names if os.path.isdir(os.path.join(layers, n)) and os.path.isfile(os.path.join(layers, n + ".toml"))), None)
+        if target is not None and snapshots_out is None:
+            with open(os.path.join(layers, target + ".toml"), "w") as f:
+                f.write('[types]\ncache = true\nlaunch = true\n\n[metadata]\nother = "from an older version"\n')
+            pre = vp.snapshot(layers)
+            ok_res = {"metadata_value": "created", "env": [], "exec_d": [], "sboms": [], "write_files": [], "delete_files": []}
+            rep = mon.call({"op": "handle", "name": target, "impl": "v3", "types": {"launch": True, "build": True, "cache": True}, "strategy": ["keep", "update", "recreate"][len(steps) % 3],
+                            "migrate": {"action": "replace", "metadata_value": "unwritable-%d" % len(steps)}, "create": ok_res, "update": ok_res})
+            post = vp.snapshot(layers)
+            sh.evaluations += 1
+            cbs = [c["cb"] for c in rep.get("callbacks", [])]
+            case["final_step"] = "migration of %s to metadata that cannot be written" % target
+            if "err" not in rep or cbs != ["migrate"] or post != pre:
+                sh.violation("unwritable-migration", "the migration callback answered ReplaceMetadata with a value TOML cannot hold (u64::MAX): result %s, callbacks %r, on disk: %s"
+                             % ("Ok" if "err" not in rep else rep["detail"][:160], cbs, vp.snap_diff(pre, post, 4) if post != pre else "unchanged"), case)
+                return
+            sh.count("unwritable_migrations_refused")
         if len(steps) >= 3 and any(s["op"] == "restore" for s in steps):
             sh.sample({"history": [s["op"] + (":%s/%s/%s" % (s.get("name"), s.get("impl"), s.get("strategy")) if s["op"] == "handle" else "") for s in steps],
                        "observed": "callbacks, disk and returned LayerData matched the model at every step"}, cap=1)
